@@ -11,7 +11,7 @@ from .cpu import QvmCpu, QVM_DEVICES
 from .cell import CellType
 from .trap import TrapCode
 from .subterminal import SubTerminal
-from .utils import format_number
+from .utils import format_number, parse_number, number_fits
 from .exceptions import DeviceError
 
 
@@ -339,46 +339,34 @@ class TerminalDevice(Device):
             if len(values) != len(var_types):
                 return False
 
-            for v, vtype in reversed(list(zip(values, var_types))):
-                if vtype == 1:  # INTEGER
-                    try:
-                        v = int(v)
-                    except ValueError:
-                        return False
-                    if v < -32768 or v > 32767:
-                        return False
-                    self.cpu.push(CellType.INTEGER, v)
-                elif vtype == 2:  # LONG
-                    try:
-                        v = int(v)
-                    except ValueError:
-                        return False
-                    if v < -2**31 or v >= 2**31:
-                        return False
-                    self.cpu.push(CellType.LONG, v)
-                elif vtype == 3:  # SINGLE
-                    try:
-                        v = float(v)
-                    except ValueError:
-                        return False
-                    if not expr.Type.SINGLE.can_hold(v):
-                        return False
-                    self.cpu.push(CellType.SINGLE, v)
-                elif vtype == 4:  # DOUBLE
-                    try:
-                        v = float(v)
-                    except ValueError:
-                        return False
-                    if not expr.Type.DOUBLE.can_hold(v):
-                        return False
-                    self.cpu.push(CellType.DOUBLE, v)
-                elif vtype == 5:  # STRING
-                    self.cpu.push(CellType.STRING, v)
-                else:
+            # Validate the whole line before pushing anything, so that a
+            # rejected line leaves nothing behind on the stack.
+            cell_types = {
+                1: CellType.INTEGER,
+                2: CellType.LONG,
+                3: CellType.SINGLE,
+                4: CellType.DOUBLE,
+                5: CellType.STRING,
+            }
+            parsed = []
+            for v, vtype in zip(values, var_types):
+                cell_type = cell_types.get(vtype)
+                if cell_type is None:
                     self._device_error(
                         error_code=Device.Error.BAD_ARG_VALUE,
                         error_msg=f'Unknown var type {vtype} for INPUT',
                     )
+                if cell_type == CellType.STRING:
+                    parsed.append((cell_type, v))
+                    continue
+                number = parse_number(v)
+                if number is None or not number_fits(number, cell_type):
+                    return False
+                parsed.append((cell_type, cell_type.py_type(
+                    round(number) if cell_type.is_integral else number)))
+
+            for cell_type, value in reversed(parsed):
+                self.cpu.push(cell_type, value)
 
             return True
 
@@ -452,29 +440,29 @@ class DataDevice(Device):
                 error_msg='Out of data',
             )
 
-        try:
-            if data_type == 1:
-                value = 0 if s == Empty.value else int(s)
-                self.cpu.push(CellType.INTEGER, value)
-            elif data_type == 2:
-                value = 0 if s == Empty.value else int(s)
-                self.cpu.push(CellType.LONG, value)
-            elif data_type == 3:
-                value = 0.0 if s == Empty.value else float(s)
-                self.cpu.push(CellType.SINGLE, value)
-            elif data_type == 4:
-                value = 0.0 if s == Empty.value else float(s)
-                self.cpu.push(CellType.DOUBLE, value)
-            elif data_type == 5:
-                value = '' if s == Empty.value else s
-                self.cpu.push(CellType.STRING, value)
-            else:
-                assert False
-        except (ValueError, TypeError) as e:
-            self._device_error(
-                error_code=Device.Error.BAD_ARG_TYPE,
-                error_msg='Cannot READ data as requested type',
-            )
+        cell_type = {
+            1: CellType.INTEGER,
+            2: CellType.LONG,
+            3: CellType.SINGLE,
+            4: CellType.DOUBLE,
+            5: CellType.STRING,
+        }.get(data_type)
+        assert cell_type is not None
+
+        if cell_type == CellType.STRING:
+            value = '' if s == Empty.value else s
+        elif s == Empty.value:
+            value = cell_type.py_type(0)
+        else:
+            value = parse_number(s)
+            if value is None:
+                self._device_error(
+                    error_code=Device.Error.BAD_ARG_TYPE,
+                    error_msg='Cannot READ data as requested type',
+                )
+            if cell_type.is_integral:
+                value = round(value)
+        self.cpu.push(cell_type, value)
 
         self.data_idx += 1
         if self.data_idx >= len(self.cpu.module.data[self.data_part]):
